@@ -642,9 +642,10 @@ func (s *scope) createInstance(descriptor *Descriptor) (any, error) {
 
 	s.setInstance(descriptor, key, instance)
 
-	// The other interfaces of the same registration share this instance
+	// The other interfaces of the same registration share this instance, as far
+	// as this provider's snapshot of the registrations still holds them
 	for _, alias := range descriptor.aliases {
-		if alias != descriptor {
+		if alias != descriptor && s.rootProvider.holds(alias) {
 			s.shareInstance(alias, instanceKey{Type: alias.Type, Key: alias.Key, Group: alias.Group}, instance)
 		}
 	}
